@@ -6,6 +6,7 @@ import StepModel.GenDeterm
         shape ∈ lit (text = decimal value) | neglit (text = decimal value of the literal under the minus) | inf | funcall | ident | op | runtime (text = attribute name)
         AMBIENT: under the current rule the line depends on an address (no prediction possible)
   order <key> <key> …                               -> O <keys in DICTdo order>
+  refout <key>:<supplier>:<hex text> …              -> G <supplier>: item, item | <supplier>: …   (exppp's USE/REFERENCE groups)
 -/
 open StepModel.GenDeterm StepModel.Generated.GenBound StepModel
 
@@ -49,6 +50,15 @@ def handle (line : String) : String :=
     | some nr, some b =>
       if safeFor currentRule b then "B " ++ hex (printBound currentRule amb0 var nr cname aggr b) else "B AMBIENT"
     | _, _ => "bad-op"
+  | "refout" :: ents =>
+    -- each entry: <key>:<supplier>:<hex of printed text>, in definition order
+    let parsed := ents.mapM fun x => match x.splitOn ":" with
+      | [k, sup, hx] => (unhex hx).map fun t => ({ item := k, supplier := sup, supplierObj := 0, printed := t } : RefEntry)
+      | _ => none
+    match parsed with
+    | some es => "G " ++ " | ".intercalate ((refoutGroups Generated.RefOut.refoutKey amb0 0 es).map fun g =>
+                   g.1 ++ ": " ++ ", ".intercalate g.2)
+    | none => "bad-op"
   | "order" :: keys => "O " ++ " ".intercalate ((ExpressHash.dictOrder (keys.map fun k => (k, ()))).map (·.1))
   | [] => ""
   | _ => "bad-op"
